@@ -80,6 +80,9 @@ class Check(core.CheckBase):
             index += 1
             if self.mine(index):
                 yield {'kind': 'nel', 'cls': name, 'number': number}
+        index += 1
+        if self.mine(index):
+            yield {'kind': 'extras'}
         name = 'cryptoparser.httpx.header:HttpHeaderFields'
         for number in range(len(self.corpus.get(name, [])) + SYNTH_BLOCKS[self.tier]):
             index += 1
@@ -221,6 +224,27 @@ class Check(core.CheckBase):
                         short, culprit_text[:120], 'differently' if outcome[0] == 'ok' else 'as %s(%s) rather' % outcome[:2],
                         canon[:100].decode('ascii', 'replace')),
                     dict(case, text=culprit_text, used=list(culprit_used))))
+        return found
+
+    def judge_extras(self, case):
+        """The hand-written further values (vmon/gen/spelling.py EXTRA_VALUES) are valid by the grammar of their RFC and were
+        accepted when they were written down: every one of them is still accepted, and composes."""
+        found = []
+        for name in sorted(spelling.EXTRA_VALUES):
+            cls = self.classes.get(name)
+            if cls is None:
+                continue
+            for text in spelling.EXTRA_VALUES[name]:
+                self.stats['extra_values_parsed'] += 1
+                self.observe(('extra', name, text), True, {'cls': name.split(':')[1], 'value': text})
+                try:
+                    obj = cls.parse_exact_size(text.encode('ascii'))
+                    obj.compose()
+                except Exception as e:  # pylint: disable=broad-except
+                    found.append(self.violation('valid-value-rejected|%s' % name.split(':')[1],
+                                                '%s: the valid value %r is refused: %r' % (name.split(':')[1], text, e),
+                                                dict(case, cls=name, text=text)))
+                    break
         return found
 
     def judge_nel(self, case):
